@@ -29,3 +29,7 @@ run da3511f C16 replays/regress/C16-D12-refinement-failure-escapes.json
 run 71b4939 C03 replays/regress/C03-D13-nonfinite-value-hangs.json
 run 674b2db C19 replays/regress/C19-D14-traversal-cursor.json
 run bb9a76d C17 replays/regress/C17-D15-0d-argument-modified.json
+run 19de2f0 C16 replays/regress/C16-D16-painter-probe-escapes.json
+run fbb4e42 C03 replays/regress/C03-D18-refused-interval-accuracy.json
+run 4a08f54 C03 replays/regress/C03-D17-huge-values-hang.json
+run 4a08f54 C02 replays/regress/C02-D17-huge-values-hang.json
